@@ -1,8 +1,117 @@
 package main
 
+import (
+	"fmt"
+
+	"golang.org/x/tools/go/ssa"
+)
+
 func init() {
 	for _, id := range []string{"C02", "C10", "C11", "C14", "C15", "C16", "C17"} {
 		id := id
-		register(&propDef{id: id, explain: "serve-loop obligations (work in progress)", run: func(p *Prog, r *Report) { p.serveLoop(id).report(r, id) }})
+		register(&propDef{id: id, explain: "serve-loop obligations (work in progress)", run: func(p *Prog, r *Report) {
+			p.serveLoop(id).report(r, id)
+			if id == "C17" {
+				hijackHandlerRule(p, r)
+			}
+		}})
 	}
+}
+
+// C17.R5: after the user's hijack handler returns, the connection is closed on
+// every path unless KeepHijackedConns is set (path-sensitive: the option is
+// tested more than once in the function).
+func hijackHandlerRule(p *Prog, r *Report) {
+	fn := p.Func("hijackConnHandler")
+	if fn == nil {
+		r.Undecided("R5", "anchor hijackConnHandler", "function not found")
+		return
+	}
+	var connParam *ssa.Parameter
+	for _, prm := range fn.Params {
+		if typeIsNetConn(prm.Type()) {
+			connParam = prm
+		}
+	}
+	var userCall *ssa.Call // the dynamic call of the HijackHandler parameter
+	allCalls(fn, func(b *ssa.BasicBlock, c ssa.CallInstruction) {
+		if cv, ok := c.(*ssa.Call); ok && cv.Call.StaticCallee() == nil && !cv.Call.IsInvoke() {
+			if _, isParam := cv.Call.Value.(*ssa.Parameter); isParam {
+				userCall = cv
+			}
+		}
+	})
+	if connParam == nil || userCall == nil {
+		r.Undecided("R5", "hijackConnHandler shape", "no net.Conn parameter or no call of the handler parameter found")
+		return
+	}
+	fRelCtx := p.Func("(*Server).releaseCtx")
+	const (
+		bUser uint64 = 1 << iota
+		bClosed
+		bCtxReleased
+	)
+	var keepLoads []ssa.Value
+	for _, b := range fn.Blocks {
+		for _, in := range b.Instrs {
+			if u, ok := in.(*ssa.UnOp); ok {
+				if _, fv := loadedField(u); fv != nil && fv.Name() == "KeepHijackedConns" {
+					keepLoads = append(keepLoads, u)
+				}
+			}
+		}
+	}
+	nret, bad := 0, 0
+	var wit []string
+	var pos string
+	x := NewExplorer(p, fn, Hooks{
+		Instr: func(x *Explorer, st *State, in ssa.Instruction) {
+			c, ok := in.(ssa.CallInstruction)
+			if !ok {
+				return
+			}
+			switch {
+			case in == ssa.Instruction(userCall):
+				st.Set(bUser)
+			case isInvoke(c, "Close") && c.Common().Value == ssa.Value(connParam):
+				if st.Has(bUser) {
+					st.Set(bClosed)
+				} else {
+					r.Check("R5", "connection is not closed before the hijack handler ran", false, p.Pos(in.Pos()), "c.Close() precedes the user's hijack handler")
+				}
+			case isCallTo(c, fRelCtx):
+				st.Set(bCtxReleased)
+			}
+		},
+		Exit: func(x *Explorer, st *State, ret *ssa.Return, pan *ssa.Panic) {
+			if ret == nil {
+				return
+			}
+			nret++
+			keep := Unknown
+			for _, k := range keepLoads {
+				if a := x.Eval(st, k); a != Unknown {
+					keep = a
+				}
+			}
+			if !st.Has(bClosed) && keep != True {
+				bad++
+				if wit == nil {
+					wit = x.Path(st)
+					pos = p.Pos(ret.Pos())
+				}
+			}
+		},
+	})
+	for _, k := range keepLoads {
+		x.Track(k)
+	}
+	x.Run(nil)
+	r.Counts["R5 hijackConnHandler return arrivals"] = nret
+	r.Floor("R5", "KeepHijackedConns tests in hijackConnHandler", len(keepLoads), 1)
+	r.Check("R5", "hijackConnHandler closes the connection after the handler unless KeepHijackedConns", bad == 0 && nret > 0, pos,
+		fmt.Sprintf("%d of %d explored return arrivals leave the connection open although KeepHijackedConns is not known to be true (hijackConn.Close is a no-op in that mode, so nobody else closes it)", bad, nret), wit...)
+	// the ctx handed to the goroutine is released exactly there
+	hit, path := reachAvoiding(fn, nil, isReturn, callTo(fRelCtx), nil)
+	r.Check("R5", "hijackConnHandler releases the ctx it was handed on every path", hit == nil, p.Pos(fn.Pos()), "a return is reachable without releaseCtx: the ctx taken over from the serve loop leaks", blocksString(p, path)...)
 }
